@@ -249,6 +249,11 @@ def single_param_neighbours(cfg, rng=None, costs_pool=None):
         var(bs=cfg["bs"] + 1)
         if cfg["bs"] > 0:
             var(bs=cfg["bs"] - 1)
+    if c in ("SingleDiskCopy", "SingleDiskMove"):
+        other = "SingleDiskMove" if c == "SingleDiskCopy" else "SingleDiskCopy"
+        var(cls=other)
+        var(cls=other, flag="np")
+        var(flag="int")
     if c not in ("SingleMemory", "None"):
         var(n=cfg["n"] + 1)
         if cfg["n"] > 2:
